@@ -18,6 +18,51 @@ thread_local! {
     static CAP: RefCell<Option<Capture>> = RefCell::new(None);
 }
 
+/// Interleaving exploration (ILV): while set on a thread, every mutating system call on a file under the
+/// given directory first calls the closure - a scheduling point of the controlled scheduler, so that
+/// another thread can run between two file writes of this one.
+pub struct SysYield {
+    pub dir: PathBuf,
+    pub f: Box<dyn Fn(&str)>,
+    busy: bool,
+}
+
+thread_local! {
+    static SYS_YIELD: RefCell<Option<SysYield>> = RefCell::new(None);
+}
+
+pub fn set_syscall_yield(v: Option<(PathBuf, Box<dyn Fn(&str)>)>) {
+    SYS_YIELD.with(|c| *c.borrow_mut() = v.map(|(dir, f)| SysYield { dir, f, busy: false }));
+}
+
+fn yield_active() -> bool {
+    SYS_YIELD.try_with(|c| c.try_borrow().map(|c| c.as_ref().map(|c| !c.busy).unwrap_or(false)).unwrap_or(false)).unwrap_or(false)
+}
+
+fn maybe_yield(path: &Path, kind: &str) {
+    if !yield_active() {
+        return;
+    }
+    SYS_YIELD.with(|c| {
+        {
+            let mut g = c.borrow_mut();
+            let y = g.as_mut().unwrap();
+            if !path.starts_with(&y.dir) {
+                return;
+            }
+            y.busy = true;
+        }
+        // the closure parks this thread until the scheduler grants it; the borrow is shared meanwhile
+        {
+            let g = c.borrow();
+            let y = g.as_ref().unwrap();
+            let file = path.file_name().map(|f| f.to_string_lossy().to_string()).unwrap_or_default();
+            (y.f)(&format!("{} {}", kind, file));
+        }
+        c.borrow_mut().as_mut().unwrap().busy = false;
+    });
+}
+
 pub fn begin(dir: &Path, out: &Path) {
     std::fs::create_dir_all(out).unwrap();
     CAP.with(|c| *c.borrow_mut() = Some(Capture { dir: dir.to_path_buf(), out: out.to_path_buf(), ops: vec![], busy: false }));
@@ -56,12 +101,17 @@ fn fd_path(fd: c_int) -> Option<PathBuf> {
 
 /// called before a mutating syscall; `path` is the affected file
 fn active() -> bool {
+    yield_active() || cap_active()
+}
+
+fn cap_active() -> bool {
     CAP.try_with(|c| c.try_borrow().map(|c| c.as_ref().map(|c| !c.busy).unwrap_or(false)).unwrap_or(false)).unwrap_or(false)
 }
 
 fn note(path: &Path, what: impl FnOnce() -> String) {
+    maybe_yield(path, "file-write");
     // fast path: nothing captured on this thread
-    if !active() {
+    if !cap_active() {
         return;
     }
     CAP.with(|c| {
